@@ -1244,6 +1244,7 @@ func runC01(r *Run, rng *Rng, replay string) {
 	}
 	c01colsPhase(r, rng, nCols)
 	c01cellTextPhase(r, rng, nCols/12)
+	c01putsPhase(r, rng, nCols/3)
 	lap("witnesses+attribute histories+cols")
 	// 1. fixed boundary payloads through every string op
 	for i, s := range c01fixedPayloads() {
@@ -1427,6 +1428,8 @@ func c01replay(r *Run, path string) {
 			c01afterSave(r)
 		case "farcell":
 			c01farCell(r)
+		case "puts":
+			c01puts(r, rest)
 		case "setint":
 			n, _ := strconv.ParseInt(w[1], 10, 64)
 			c01setint(r, n)
